@@ -4,6 +4,8 @@ import (
 	"context"
 	"fmt"
 	"math/big"
+	"strings"
+	"time"
 
 	"github.com/vipnode/vipnode/v2/ethnode"
 	"github.com/vipnode/vipnode/v2/internal/verifapi"
@@ -151,4 +153,63 @@ func verifSmallWorld() *verifWorld {
 	db.AddAccountNode(w.wallets[0], w.nodes[0])
 	db.AddNodeBalance(w.nodes[0], big.NewInt(77))
 	return w
+}
+
+// VerifC15ContractLookups: balance lookups through the real contract proxy
+// (pool_account, and the node-balance lookup behind vipnode_update) repeated
+// while the deposit read is in trouble - the deposit is timelocked, or the
+// Ethereum node is unreachable for the first one or two reads: every lookup
+// returns (an error or a balance), nothing panics, a lookup made after the
+// trouble has passed reports the true balance, and a failed read is never
+// served from the cache as if it were a balance.
+func VerifC15ContractLookups() {
+	db := newVerifStore()
+	wal := store.Account(verifapi.Wallet(0))
+	node := store.NodeID(verifapi.NodeID(0))
+	cp := verifNewContractPayment(db)
+	ch := verifTheChain
+	key := strings.ToLower(string(wal))
+	ch.deposit[key] = big.NewInt(7000)
+	verifapi.SetNow(time.Unix(1600000000, 0))
+	db.SetNode(store.Node{ID: node, LastSeen: verifapi.Now()})
+	db.AddAccountNode(wal, node)
+	db.AddAccountBalance(wal, big.NewInt(5000))
+	pay := &PaymentService{NonceStore: db, AccountStore: db, BalanceStore: cp}
+	trouble := verifapi.Choose("trouble", 4)
+	switch trouble {
+	case 1:
+		ch.timelocked[key] = true
+	case 2:
+		ch.failReads = 1
+	case 3:
+		ch.failReads = 2
+	}
+	lookup := func(k int) (int64, error) {
+		if k == 0 {
+			r, err := pay.Account(context.Background(), string(wal))
+			if err != nil {
+				return 0, err
+			}
+			return new(big.Int).Add(&r.Balance.Deposit, &r.Balance.Credit).Int64(), nil
+		}
+		b, err := cp.GetNodeBalance(node)
+		if err != nil {
+			return 0, err
+		}
+		return new(big.Int).Add(&b.Deposit, &b.Credit).Int64(), nil
+	}
+	n := verifapi.Param("lookups", 3)
+	for i := 0; i < n; i++ {
+		total, err := lookup(verifapi.Choose(fmt.Sprint("lookup", i), 2))
+		if err == nil {
+			verifapi.Assert(total == 12000, "c15.contract.lookup-reports-the-true-balance")
+			verifapi.Assert(trouble != 1, "c15.contract.timelocked-deposit-is-not-reported-as-spendable")
+		}
+	}
+	// the trouble passes
+	ch.timelocked[key] = false
+	ch.failReads = 0
+	total, err := lookup(verifapi.Choose("final", 2))
+	verifapi.Reach("c15.contract.lookups")
+	verifapi.Assert(err == nil && total == 12000, "c15.contract.lookup-after-trouble-succeeds")
 }
